@@ -170,9 +170,12 @@ impl Op {
                     is_global: x.is_global & y.is_global,
                 }
             }
+            // A relational result is a 1-bit UNSIGNED value (LRM 11.4.4, Table 11-21)
+            // even when both operands are signed; `eval_value` takes the
+            // comparison's own signedness from the operand contexts, not from here.
             Op::Greater | Op::GreaterEq | Op::Less | Op::LessEq => ExpressionContext {
                 width: 1,
-                signed: x.signed & y.signed,
+                signed: false,
                 is_const: x.is_const & y.is_const,
                 is_global: x.is_global & y.is_global,
             },
